@@ -103,11 +103,12 @@ Definition glwe_sub_assign (n : nat) (res a : glwe) : option glwe :=
     Some (mapi_cols res (fun i r0 => if Nat.leb i (g_rank a) then vec_sub_assign W64 (gcol a i) r0 else r0))
   else None.
 
-(* res <- a - res.  NOTE (faithful to the code): only the columns 0..=a.rank are touched, so with a rank-0
-   operand the mask columns of res are NOT negated. *)
+(* res <- a - res.  Columns beyond a.rank (a lower-rank operand, e.g. a plaintext) are negated
+   (repair efc2285: before it they were left untouched). *)
 Definition glwe_sub_negate_assign (n : nat) (res a : glwe) : option glwe :=
   if same_n n res && same_n n a && (g_b res =? g_b a) && rank_eq_or_0 res a then
-    Some (mapi_cols res (fun i r0 => if Nat.leb i (g_rank a) then vec_sub_negate_assign W64 (gcol a i) r0 else r0))
+    Some (mapi_cols res (fun i r0 => if Nat.leb i (g_rank a) then vec_sub_negate_assign W64 (gcol a i) r0
+                                     else vec_unary_assign (vneg W64) r0))
   else None.
 
 (* ------------------------------------------------------------------------------------------------ *)
@@ -163,24 +164,25 @@ Definition glwe_lsh_assign (n : nat) (scr : Z) (k : Z) (res : glwe) : option glw
     mapi_cols_opt res (fun _ r0 => col_coeff (fun _ r => Some (lsh_assign W64 (g_b res) k r)) n r0 r0)
   else None.
 
-(* glwe_lsh / glwe_lsh_add / glwe_lsh_sub assert res.rank >= a.rank but run the column loop over 0..=res.rank and
-   hand column i of `a` to the HAL.  For i > a.rank the HAL routine panics in `a.at(i, _)` as soon as it reads a
-   limb of `a`, i.e. unless the limb shift already exceeds a's size (k / base2k >= a.size: then it reads nothing
-   and only zero-fills (lsh) or leaves res untouched (lsh_add / lsh_sub)). *)
-Definition lsh_reads_a (b k : Z) (asize : nat) : bool := Nat.ltb (Z.to_nat (k / b)) asize.
+(* the generic column loop of the shift / normalise family: column i of res from column i of a, coefficient by
+   coefficient; columns that `a` does not have (lower-rank operand) are zero-filled (ovz) or left as they are *)
+Definition colloop (f : list Z -> list Z -> option (list Z)) (ovz : bool) (n : nat) (res a : glwe) : option glwe :=
+  mapi_cols_opt res (fun i r0 =>
+    if Nat.ltb i (g_ncols a) then col_coeff f n (gcol a i) r0
+    else Some (if ovz then vec_zero n r0 else r0)).
 
-Definition glwe_lsh_gen (f : Z -> Z -> list Z -> list Z -> list Z)
+(* glwe_lsh / glwe_lsh_add / glwe_lsh_sub assert res.rank >= a.rank and loop over the columns of `a`
+   (repair 4e31282: before it they looped over 0..=res.rank and panicked in a.at(i, _) for i > a.rank);
+   glwe_lsh zero-fills the columns of res beyond a.rank, the other two leave them untouched. *)
+Definition glwe_lsh_gen (ovz : bool) (f : Z -> Z -> list Z -> list Z -> list Z)
            (n : nat) (scr : Z) (k : Z) (res a : glwe) : option glwe :=
   if (shift_tmp_bytes n <=? scr) && same_n n res && same_n n a && (g_b res =? g_b a) && Nat.leb (g_rank a) (g_rank res) then
-    mapi_cols_opt res (fun i r0 =>
-      if Nat.ltb i (g_ncols a) then col_coeff (fun x r => Some (f (g_b res) k x r)) n (gcol a i) r0
-      else if lsh_reads_a (g_b res) k (g_size a) then None
-      else col_coeff (fun x r => Some (f (g_b res) k x r)) n (zcol n (g_size a)) r0)
+    colloop (fun x r => Some (f (g_b res) k x r)) ovz n res a
   else None.
 
-Definition glwe_lsh := glwe_lsh_gen (fun b k x r => lsh W64 true b k x r).
-Definition glwe_lsh_add := glwe_lsh_gen (fun b k x r => lsh W64 false b k x r).
-Definition glwe_lsh_sub := glwe_lsh_gen (fun b k x r => lsh_sub W64 b k x r).
+Definition glwe_lsh := glwe_lsh_gen true (fun b k x r => lsh W64 true b k x r).
+Definition glwe_lsh_add := glwe_lsh_gen false (fun b k x r => lsh W64 false b k x r).
+Definition glwe_lsh_sub := glwe_lsh_gen false (fun b k x r => lsh_sub W64 b k x r).
 
 (* ------------------------------------------------------------------------------------------------ *)
 (* GLWENormalize                                                                                    *)
@@ -280,6 +282,21 @@ Definition exec_instr (n : nat) (scr : Z) (regs : list glwe) (ins : instr) : opt
 Definition run_prog (n : nat) (scr : Z) (prog : list instr) (regs : list glwe) : option (list glwe) :=
   fold_left (fun st ins => match st with Some r => exec_instr n scr r ins | None => None end) prog (Some regs).
 
+(* the destination register after every step (what a step-by-step observer sees) *)
+Fixpoint run_prog_trace (n : nat) (scr : Z) (prog : list instr) (regs : list glwe) : option (list glwe) :=
+  match prog with
+  | [] => Some []
+  | ins :: p =>
+      match exec_instr n scr regs ins with
+      | Some regs' =>
+          match run_prog_trace n scr p regs' with
+          | Some t => Some (reg regs' (i_d ins) :: t)
+          | None => None
+          end
+      | None => None
+      end
+  end.
+
 (* ================================================================================================ *)
 (* Spec level: the decryption phase, exact in Z[X]/(X^n+1) (unbounded Z, no wrap).                   *)
 
@@ -367,6 +384,3 @@ Definition VP (P b : Z) (n : nat) (s : list (list Z)) (g : glwe) : list Z :=
   padd (valp P b n (gcol g 0)) (psum n (map (fun i => pmul (nth i s []) (valp P b n (gcol g (S i)))) (seq 0 (length s)))).
 Definition tor_dist (P x : Z) : Z := Z.abs (wrap P x).
 
-(* the generic column loop of the shift / normalise family: column i of res from column i of a, coefficient by coefficient *)
-Definition colloop (f : list Z -> list Z -> option (list Z)) (n : nat) (res a : glwe) : option glwe :=
-  mapi_cols_opt res (fun i r0 => col_coeff f n (gcol a i) r0).
